@@ -171,6 +171,55 @@ func wirePass(c *vh.Ctx) {
 				seen[sb] = true
 			}
 		}
+		// one message object and its re-stamped siblings written through the connection, in some
+		// order: every frame on the socket must be THAT sibling's ToBytes()
+		for fi := 0; fi < perLink/8+2; fi++ {
+			decoded := r.Intn(2) == 0
+			base, _ := freshBase(c, decoded)
+			ops := randOps(c, true)
+			for len(ops) == 0 {
+				ops = randOps(c, true)
+			}
+			sibs := siblingsOf(base, ops)
+			ord := framingOrder(c, len(sibs))
+			broken := false
+			for _, i := range ord {
+				m := sibs[i]
+				var sendErr error
+				if r.Intn(2) == 0 {
+					sendErr = l.Conn.ForwardDataMessage(ctx, m)
+				} else {
+					sendErr = l.Conn.ForwardDataMessageAsync(ctx, m)
+				}
+				if sendErr != nil {
+					c.Fail("wire: forward failed on an open, selected link: "+sendErr.Error(), "family")
+					broken = true
+					break
+				}
+				f := peer.WaitFrame(isData, 5*time.Second)
+				if f == nil {
+					c.Fail("wire: the peer did not receive the data frame", "family")
+					broken = true
+					break
+				}
+				body := m.AppendBodyTo(nil)
+				kind := "O"
+				if len(body) == 0 {
+					kind = "N"
+				}
+				line := fmt.Sprintf("W data 7 %d %d %s %d %s %s %s | %s", m.Stream(), m.Function(), vh.B01(m.WaitBit()), m.SessionID(),
+					fr.SB(m.SystemBytes()), kind, fr.Hex(body), fr.Hex(f))
+				c.Case(line, line, true)
+				c.Count(fmt.Sprintf("W/family/decoded=%v/sibling>0=%v", decoded, i > 0))
+				if !bytes.Equal(f, m.ToBytes()) {
+					c.Fail(fmt.Sprintf("wire: bytes on the socket for re-stamped sibling %d differ from its ToBytes() (write order %v, base %s)", i, ord,
+						map[bool]string{true: "decoded from a frame", false: "constructed"}[decoded]), line)
+				}
+			}
+			if broken {
+				break
+			}
+		}
 		if li == 1 {
 			if f := peer.WaitFrame(func(f []byte) bool { return len(f) == 14 && f[9] == 5 }, 2*time.Second); f != nil {
 				var sb [4]byte
